@@ -8,6 +8,7 @@ import Vise.Driver.Cache
 import Vise.Driver.Render
 import Vise.Driver.Engine
 import Vise.Driver.Db
+import Vise.Driver.Pg
 
 open Vise.Driver
 
@@ -20,6 +21,7 @@ def main (args : List String) : IO UInt32 := do
   | ["render"] => loop stdin stdout () renderStep; return 0
   | ["engine"] => loop stdin stdout () engineStep; return 0
   | ["db"] => loop stdin stdout () dbStep; return 0
+  | ["pg"] => loop stdin stdout () pgStep; return 0
   | _ =>
     IO.eprintln "usage: visemodel <suite>"
     return 2
